@@ -30,13 +30,13 @@ def main(ck):
       '(rendezvous barrier inside the task function), not an exhaustive schedule enumeration',
       'arena alignments are limited to <= 64 (the documented alignment of the arena base)',
       '"no spurious exhaustion" allows 64 bytes of red-zone bookkeeping per stack block in the ASan build']
-  nseq_rel, nseq_asan, npipe = ck.budget(1000, 60000), ck.budget(500, 30000), ck.budget(60, 3000)
-  shards = 4 if ck.quick else 14
+  nseq_rel, nseq_asan, npipe = ck.budget(750, 60000), ck.budget(300, 30000), ck.budget(24, 3000)
+  shards = 3 if ck.quick else 14
   jobs_rel, jobs_asan = [], []
   for s in range(shards):
     jobs_rel.append(dict(family='seq', variant='rel', tier=ck.tier, seed=ck.seed, shard=s, n=nseq_rel // shards))
     jobs_asan.append(dict(family='seq', variant='asan', tier=ck.tier, seed=ck.seed, shard=s, n=nseq_asan // shards))
-  pshards = 2 if ck.quick else 8
+  pshards = 1 if ck.quick else 8
   for s in range(pshards):
     jobs_rel.append(dict(family='pipe', variant='rel', tier=ck.tier, seed=ck.seed, shard=s, n=npipe // pshards))
     jobs_asan.append(dict(family='pipe', variant='asan', tier=ck.tier, seed=ck.seed, shard=s, n=npipe // pshards))
